@@ -4,6 +4,7 @@ import EaselModel.Msafile.A2mReadDomain
 import EaselModel.Msafile.ClustalReadDomain
 import EaselModel.Msafile.PsiblastReadDomain
 import EaselModel.Msafile.PhylipReadDomain
+import EaselModel.Msafile.SelexLemmas
 /-! # `ModeOk` for the readers whose result mode is already a lemma (C03 read-domain files, imported only): aligned FASTA, A2M,
 Clustal, Clustal-like, PSI-BLAST - every alphabet selection, every name width, every list of lines. -/
 namespace EaselModel.Sqio.MsaSeq
@@ -79,5 +80,51 @@ theorem modeOk_phylips (abc : Option AbcType) : ModeOk ⟨.phylips, abc, 0⟩ :=
     rw [← this]
   obtain ⟨_, _, hd, hk, _⟩ := phylipRead_nd true _ lines m _ hr
   exact modeOf_of_cfg .phylips abc 0 m hd hk (cfg_digital _ _) (cfg_kp _ _)
+
+/-- a line-at-a-time reader whose steps never declare success returns `eslOK` only from its end-of-input function -/
+theorem runLines_ok_from_finish {σ : Type} (step : σ → Msafile.Bytes → Sum σ (Res Msa)) (finish : σ → Res Msa)
+    (hstep : ∀ st l, NotOk (step st l)) :
+    ∀ (ls : List Msafile.Bytes) (st : σ) (m : Msa), (runLines step finish st ls).1 = .ok m → ∃ st', finish st' = .ok m := by
+  intro ls
+  induction ls with
+  | nil => intro st m h; exact ⟨st, by simpa [runLines] using h⟩
+  | cons l ls ih =>
+    intro st m h
+    unfold runLines at h
+    cases hs : step st l with
+    | inl st' => rw [hs] at h; exact ih st' m h
+    | inr r =>
+      rw [hs] at h
+      simp only at h
+      subst h
+      exact absurd hs (hstep st l m)
+
+theorem selexFinal_mode (cfg : Cfg) (st : SxSt) (m : Msa) (h : selexFinal cfg st = .ok m) : m.digital = cfg.digital ∧ m.kp = cfg.kp := by
+  unfold selexFinal at h
+  split at h
+  · simp at h
+  · split at h
+    · simp at h
+    · split at h
+      · simp at h
+      · simp only [Res.ok.injEq] at h
+        subst h
+        exact ⟨rfl, rfl⟩
+
+/-- SELEX, every alphabet selection and name width -/
+theorem modeOk_selex (abc : Option AbcType) (nw : Nat) : ModeOk ⟨.selex, abc, nw⟩ := by
+  intro lines m h
+  obtain ⟨st', hf⟩ := runLines_ok_from_finish (selexStep (cfgOf .selex (abc.map abcOfType))) (selexFinish (cfgOf .selex (abc.map abcOfType)))
+    (fun st l => selexStep_notOk _ st l) lines {} m h
+  have hmode : m.digital = (cfgOf .selex (abc.map abcOfType)).digital ∧ m.kp = (cfgOf .selex (abc.map abcOfType)).kp := by
+    unfold selexFinish at hf
+    split at hf
+    · split at hf
+      · rename_i r hpb
+        subst hf
+        exact absurd hpb (processBlock_notOk _ _ m)
+      · exact selexFinal_mode _ _ m hf
+    · exact selexFinal_mode _ _ m hf
+  exact modeOf_of_cfg .selex abc nw m hmode.1 hmode.2 (cfg_digital _ _) (cfg_kp _ _)
 
 end EaselModel.Sqio.MsaSeq
